@@ -1075,14 +1075,22 @@ Variable rt : rtable.
 Variable mt : mtable.
 
 Definition simple_name (n : nameref) : bool := match n with NStr _ | NVar _ => true | NMacro m => simple_value (macro mt m) end.
-Definition simple_opnd (o : opnd) : bool := match o with Target _ n => simple_name n | _ => false end.
-Definition simple_ops (ops : operands) : bool :=
-  match ops with OpAll => true | OpList l => forallb simple_opnd l | OpDefault => true end.
+Definition zone_ok (n : nameref) (a : rval) (b : option rval) : bool :=
+  simple_name n && plain_rval mt a && match b with Some b' => plain_rval mt b' | None => true end.
+(* (a zone range is an operand of `set` only: c = the command is a colour command) *)
+Definition simple_opnd (c : bool) (o : opnd) : bool :=
+  match o with Target _ n => simple_name n | Zone n a b => c && zone_ok n a b | _ => false end.
+Definition simple_ops (c : bool) (ops : operands) : bool :=
+  match ops with OpAll => true | OpList l => forallb (simple_opnd c) l | OpDefault => true end.
 
 Lemma c_ops_all op : c_ops rt mt false op OpAll = [I2 OC_MOVEQ (POperand OD_ALL) (PReg R_OPERAND); I0 op].
 Proof. reflexivity. Qed.
 Lemma c_ops_nil op : c_ops rt mt false op (OpList []) = [].
 Proof. reflexivity. Qed.
+Definition zone_code (n : nameref) (a : rval) (b : option rval) : program :=
+  c_name mt n ++ c_range rt mt (a, b) R_FIRST_ZONE R_LAST_ZONE ++ [I2 OC_MOVEQ (POperand OD_MZ_LIGHT) (PReg R_OPERAND); I0 OC_COLOR].
+Lemma c_ops_cons_zone n a b r : c_ops rt mt false OC_COLOR (OpList (Zone n a b :: r)) = zone_code n a b ++ c_ops rt mt false OC_COLOR (OpList r).
+Proof. unfold zone_code. cbn [c_ops c_operand]. rewrite <- !app_assoc. reflexivity. Qed.
 Lemma c_ops_cons op k n r : c_ops rt mt false op (OpList (Target k n :: r)) =
   (c_name mt n ++ [I2 OC_MOVEQ (POperand (kind_operand k)) (PReg R_OPERAND); I0 op]) ++ c_ops rt mt false op (OpList r).
 Proof. destruct k, n; reflexivity. Qed.
@@ -1136,7 +1144,98 @@ Proof.
   - split; [exact Hs3|]. split; [rewrite Hpc; unfold s2, s1; cbn [put_vm m_pc]; lia|]. split; [rewrite Hst; reflexivity|exact Htr].
 Qed.
 
-Lemma sim_oplist (c : bool) l : forallb simple_opnd l = true ->
+(* ---- set "Strip" zone a b ---- *)
+Lemma raw_duration_agree a b : agree a b -> rf_raw_duration a = rf_raw_duration b.
+Proof. intros H. unfold rf_raw_duration. rewrite (unit_mode_agree a b H), (agree_rreg a b R_DURATION H eq_refl). reflexivity. Qed.
+Lemma do_color_zone_respects name x y a b w : agree a b -> do_color_zone a w name x y = rebase a (do_color_zone b w name x y).
+Proof.
+  intros H. unfold do_color_zone. destruct (as_name name) as [n|]; [|reflexivity]. destruct (find_light w n) as [l|]; [|reflexivity].
+  destruct (l_kind l); try reflexivity.
+  rewrite (raw_color_agree a b H), (raw_duration_agree a b H).
+  destruct (eval_binop OP_ADD match y with VNone => x | _ => y end (VInt 1)) as [e|]; cbn [bind rebase]; [|reflexivity].
+  destruct (rf_raw_color b) as [rc|]; cbn [bind rebase]; [|reflexivity]. destruct (rf_raw_duration b) as [rd|]; cbn [bind rebase]; [|reflexivity].
+  destruct (param_16 x); cbn [bind rebase]; [|reflexivity]. destruct (param_16 e); cbn [bind rebase]; [|reflexivity].
+  destruct (param_color rc); cbn [bind rebase]; [|reflexivity]. destruct (param_32 rd); reflexivity.
+Qed.
+Lemma plain_ok_hidden r v : plain_rval mt v = true -> visible r = false -> writable r = true -> ok_dest (DReg r) v = true.
+Proof.
+  intros Hp Hv Hw. cbn [ok_dest]. rewrite Hw. destruct v; try reflexivity. cbn [plain_rval] in Hp. cbn [andb].
+  destruct (register_eqb r0 r) eqn:E; [|reflexivity]. apply register_eqb_eq in E. subst r0. rewrite Hv in Hp. discriminate.
+Qed.
+Lemma exec_operand_zone f ss (c : bool) n a b : exec_operand rt mt (S f) false ss c (Zone n a b) =
+  (let* (x, s1) := eval_rval rt mt f false ss a in
+   let* (y, s2) := (match b with Some b' => eval_rval rt mt f false s1 b' | None => ROk VNone s1 end) in
+   dev_step s2 (do_color_zone (s_regs s2) (s_world s2) (name_of mt ss n) x y)).
+Proof. reflexivity. Qed.
+
+Lemma sim_one_zone n a b im ss s ss1 fuel : zone_ok n a b = true -> sim ss s -> code_at im (m_pc s) (zone_code n a b) ->
+  exec_operand rt mt fuel false ss true (Zone n a b) = ROk tt ss1 ->
+  exists k s1 evs, esteps k im s = Some (s1, evs) /\ sim ss1 s1 /\ m_pc s1 = m_pc s + zlength (zone_code n a b) /\ (m_stack s1, fr s1) = (m_stack s, fr s) /\
+                   rev (s_trace ss1) = rev (s_trace ss) ++ evs.
+Proof.
+  intros Hz Hsim Hc He. unfold zone_ok in Hz. apply andb_true_iff in Hz. destruct Hz as [Hz Hpb]. apply andb_true_iff in Hz. destruct Hz as [Hnm Hpa].
+  destruct fuel as [|fuel]; [discriminate|]. rewrite exec_operand_zone in He.
+  destruct (eval_rval rt mt fuel false ss a) as [x sa|e sa|sa] eqn:Ea; cbn [sbind] in He; try discriminate.
+  unfold zone_code in Hc |- *. apply code_at_app in Hc. destruct Hc as [Hcn Hc].
+  assert (Hzn : zlength (c_name mt n) = 1) by (destruct n; reflexivity). rewrite Hzn in Hc.
+  unfold c_range in Hc |- *. cbn [fst snd] in Hc |- *. apply code_at_app in Hc. destruct Hc as [Hcr Hc]. apply code_at_app in Hcr. destruct Hcr as [Hca Hcb].
+  set (name := name_of mt ss n) in *.
+  destruct (load_name n im ss s Hnm Hsim Hcn) as [E1 Hs1]. fold name in E1, Hs1.
+  set (s1 := put_vm s (DReg R_NAME) name 1) in *.
+  assert (Hca1 : code_at im (m_pc s1) (c_rval rt mt a (DReg R_FIRST_ZONE))) by exact Hca.
+  destruct (c_rval_runs rt mt a (DReg R_FIRST_ZONE) Hpa (plain_ok_hidden R_FIRST_ZONE a Hpa eq_refl eq_refl) im ss s1 x sa fuel Hs1 Hca1 Ea) as [Hsa [n2 E2]]. subst sa.
+  set (ka := zlength (c_rval rt mt a (DReg R_FIRST_ZONE))) in *.
+  set (s2 := put_vm s1 (DReg R_FIRST_ZONE) x ka) in *.
+  assert (Hs2 : sim ss s2) by (apply sim_put_reg_hidden; [exact Hs1|reflexivity|reflexivity]).
+  (* the end of the range *)
+  set (cb := match b with Some b' => c_rval rt mt b' (DReg R_LAST_ZONE) | None => [I2 OC_MOVEQ PNone (PReg R_LAST_ZONE)] end) in *.
+  set (kb := zlength cb) in *.
+  assert (Hb : exists y n3, (match b with Some b' => eval_rval rt mt fuel false ss b' | None => ROk VNone ss end) = ROk y ss /\
+                            esteps n3 im s2 = Some (put_vm s2 (DReg R_LAST_ZONE) y kb, [])).
+  { assert (Hcb2 : code_at im (m_pc s2) cb) by exact Hcb.
+    destruct b as [b'|].
+    - destruct (eval_rval rt mt fuel false ss b') as [y sb|e sb|sb] eqn:Eb; cbn [sbind] in He; try discriminate.
+      destruct (c_rval_runs rt mt b' (DReg R_LAST_ZONE) Hpb (plain_ok_hidden R_LAST_ZONE b' Hpb eq_refl eq_refl) im ss s2 y sb fuel Hs2 Hcb2 Eb) as [Hsb [n3 E3]]. subst sb.
+      exists y, n3. split; [reflexivity|exact E3].
+    - exists VNone, 1%nat. split; [reflexivity|]. unfold cb in Hcb2. cbn [code_at] in Hcb2. destruct Hcb2 as [Hf _].
+      exact (proj1 (load_hidden im ss s2 PNone R_LAST_ZONE VNone Hs2 eq_refl eq_refl eq_refl eq_refl Hf)). }
+  destruct Hb as (y & n3 & Eyb & E3). rewrite Eyb in He. cbn [sbind] in He.
+  set (s3 := put_vm s2 (DReg R_LAST_ZONE) y kb) in *.
+  assert (Hs3 : sim ss s3) by (apply sim_put_reg_hidden; [exact Hs2|reflexivity|reflexivity]).
+  cbn [code_at] in Hc. destruct Hc as [Hf4 [Hf5 _]].
+  assert (Hf4' : fetch im (m_pc s3) = Some (I2 OC_MOVEQ (POperand OD_MZ_LIGHT) (PReg R_OPERAND))).
+  { unfold s3, s2, s1. cbn [put_vm m_pc]. fold ka. fold kb.
+    replace (m_pc s + 1 + ka + kb) with (m_pc s + 1 + zlength (c_rval rt mt a (DReg R_FIRST_ZONE) ++ cb)); [exact Hf4|].
+    unfold zlength. rewrite app_length, Nat2Z.inj_add. unfold ka, kb, zlength. lia. }
+  destruct (load_hidden im ss s3 (POperand OD_MZ_LIGHT) R_OPERAND (VOperand OD_MZ_LIGHT) Hs3 eq_refl eq_refl eq_refl eq_refl Hf4') as [E4 Hs4].
+  set (s4 := put_vm s3 (DReg R_OPERAND) (VOperand OD_MZ_LIGHT) 1) in *.
+  assert (Hn4 : reg s4 R_NAME = name).
+  { unfold reg, get_reg, s4, s3, s2, s1. cbn [put_vm m_regs]. rewrite !rf_get_set_other by reflexivity. rewrite rf_get_set_same. reflexivity. }
+  assert (Hx4 : reg s4 R_FIRST_ZONE = x).
+  { unfold reg, get_reg, s4, s3, s2. cbn [put_vm m_regs]. rewrite !rf_get_set_other by reflexivity. rewrite rf_get_set_same. reflexivity. }
+  assert (Hy4 : reg s4 R_LAST_ZONE = y).
+  { unfold reg, get_reg, s4, s3. cbn [put_vm m_regs]. rewrite !rf_get_set_other by reflexivity. rewrite rf_get_set_same. reflexivity. }
+  assert (Ho4 : rf_get (m_regs s4) R_OPERAND = Some (VOperand OD_MZ_LIGHT)) by (unfold s4; cbn [put_vm m_regs]; apply rf_get_set_same).
+  destruct (dev_sim (fun rf w => do_color_zone rf w name x y) (fun p q w H => do_color_zone_respects name x y p q w H) ss s4 ss1 Hs4 He)
+    as (s5 & evs & Ho5 & Hs5 & Hpc5 & Hst5 & Htr5).
+  assert (Hf5' : fetch im (m_pc s4) = Some (I0 OC_COLOR)).
+  { unfold s4. cbn [put_vm m_pc]. replace (m_pc s3 + 1) with (m_pc s3 + Z.of_nat 1) by lia. unfold s3, s2, s1. cbn [put_vm m_pc]. fold ka. fold kb.
+    replace (m_pc s + 1 + ka + kb + Z.of_nat 1) with (m_pc s + 1 + zlength (c_rval rt mt a (DReg R_FIRST_ZONE) ++ cb) + Z.of_nat 1); [exact Hf5|].
+    unfold zlength. rewrite app_length, Nat2Z.inj_add. unfold ka, kb, zlength. lia. }
+  assert (E5 : esteps 1 im s4 = Some (s5, evs ++ [])).
+  { cbn [esteps]. rewrite Hf5'. cbn [Machine.exec i_op I0]. unfold cmd_color. rewrite Hn4, Hx4, Hy4. unfold reg at 1, get_reg. rewrite Ho4. rewrite Ho5. reflexivity. }
+  exists (1 + (n2 + (n3 + (1 + 1))))%nat, s5, ([] ++ ([] ++ ([] ++ ([] ++ (evs ++ []))))).
+  split; [eapply esteps_app; [exact E1|eapply esteps_app; [exact E2|eapply esteps_app; [exact E3|eapply esteps_app; [exact E4|exact E5]]]]|].
+  split; [exact Hs5|].
+  split.
+  { rewrite Hpc5. unfold s4, s3, s2, s1. cbn [put_vm m_pc]. fold ka. fold kb.
+    match goal with |- _ = _ + zlength ?L => assert (Hlen : zlength L = 1 + (ka + kb) + 2) end.
+    { unfold zlength in *. rewrite !app_length, !Nat2Z.inj_add. cbn [length]. unfold ka, kb, cb, zlength. destruct n; destruct b; cbn [c_name Datatypes.length]; lia. }
+    rewrite Hlen. lia. }
+  split; [rewrite Hst5; reflexivity|]. cbn [app]. rewrite app_nil_r. exact Htr5.
+Qed.
+
+Lemma sim_oplist (c : bool) l : forallb (simple_opnd c) l = true ->
   forall im ss s ss1 fuel, sim ss s -> code_at im (m_pc s) (c_ops rt mt false (cmd_op c) (OpList l)) ->
   exec_oplist rt mt fuel false ss c l = ROk tt ss1 ->
   exists n s1 evs, esteps n im s = Some (s1, evs) /\ sim ss1 s1 /\ m_pc s1 = m_pc s + zlength (c_ops rt mt false (cmd_op c) (OpList l)) /\
@@ -1147,7 +1246,18 @@ Proof.
     exists 0%nat, s, []. rewrite c_ops_nil. split; [reflexivity|]. split; [exact Hsim|]. split; [unfold zlength; cbn; lia|].
     split; [reflexivity|rewrite app_nil_r; reflexivity].
   - cbn [forallb] in Hl. apply andb_true_iff in Hl. destruct Hl as [Ho Hr].
-    destruct o as [k n| | |]; cbn [simple_opnd] in Ho; try discriminate.
+    destruct o as [k n|n a b| |]; cbn [simple_opnd] in Ho; try discriminate.
+    2: { (* a zone range *)
+      apply andb_true_iff in Ho. destruct Ho as [Hcc Hz]. subst c. cbn [cmd_op] in *.
+      destruct fuel as [|fuel]; [discriminate|]. rewrite exec_oplist_cons in He.
+      destruct (exec_operand rt mt fuel false ss true (Zone n a b)) as [[] sa|e sa|sa] eqn:Ed; cbn [sbind] in He; try discriminate.
+      rewrite c_ops_cons_zone in Hc |- *. apply code_at_app in Hc. destruct Hc as [Hc1 Hc2].
+      destruct (sim_one_zone n a b im ss s sa fuel Hz Hsim Hc1 Ed) as (k1 & s1 & e1 & E1 & Hs1 & Hpc1 & Hst1 & Htr1).
+      assert (Hc2' : code_at im (m_pc s1) (c_ops rt mt false OC_COLOR (OpList r))) by (rewrite Hpc1; exact Hc2).
+      destruct (IH Hr im sa s1 ss1 fuel Hs1 Hc2' He) as (n2 & s2 & e2 & E2 & Hs2 & Hpc2 & Hst2 & Htr2).
+      exists (k1 + n2)%nat, s2, (e1 ++ e2). split; [eapply esteps_app; eassumption|]. split; [exact Hs2|].
+      split; [rewrite Hpc2, Hpc1; unfold zlength; rewrite app_length, Nat2Z.inj_add; lia|].
+      split; [rewrite Hst2; exact Hst1|]. rewrite Htr2, Htr1, app_assoc. reflexivity. }
     destruct fuel as [|fuel]; [discriminate|]. rewrite exec_oplist_cons in He.
     destruct fuel as [|fuel]; [discriminate|]. rewrite exec_operand_targetv in He.
     destruct (dev_step ss (target_cmdv k c (name_of mt ss n) (s_regs ss) (s_world ss))) as [[] sa|e sa|sa] eqn:Ed; cbn [sbind] in He; try discriminate.
@@ -1169,7 +1279,7 @@ Variable mt : mtable.
 
 Definition ops_size (ops : operands) : nat := match ops with OpList l => (2 * length l + 3)%nat | _ => 3%nat end.
 
-Lemma sim_ops (c : bool) ops : simple_ops mt ops = true ->
+Lemma sim_ops (c : bool) ops : simple_ops mt c ops = true ->
   forall im ss s ss1 fuel, sim ss s -> code_at im (m_pc s) (c_ops rt mt false (cmd_op c) ops) ->
   exec_ops rt mt fuel false ss c ops = ROk tt ss1 ->
   exists n s1 evs, esteps n im s = Some (s1, evs) /\ sim ss1 s1 /\ m_pc s1 = m_pc s + zlength (c_ops rt mt false (cmd_op c) ops) /\
@@ -1219,7 +1329,7 @@ Lemma c_power (on : bool) ops : c_stmt rt mt false None (if on then SOn ops else
   [I2 OC_MOVEQ (PBool on) (PReg R_POWER)] ++ [I0 OC_WAIT] ++ c_ops rt mt false OC_POWER ops.
 Proof. destruct on; reflexivity. Qed.
 
-Lemma sim_SSet ops im ss s ss' fuel : simple_ops mt ops = true -> sim ss s ->
+Lemma sim_SSet ops im ss s ss' fuel : simple_ops mt true ops = true -> sim ss s ->
   code_at im (m_pc s) (c_stmt rt mt false None (SSet ops)) ->
   Sem.exec rt mt fuel false ss (SSet ops) = ROk SigNormal ss' -> simulates im ss s ss' (c_stmt rt mt false None (SSet ops)).
 Proof.
@@ -1235,7 +1345,7 @@ Proof.
   split; [rewrite Hst2; reflexivity|]. rewrite Ht2, Ht1, app_assoc. reflexivity.
 Qed.
 
-Lemma sim_power (on : bool) ops im ss s ss' fuel : simple_ops mt ops = true -> sim ss s ->
+Lemma sim_power (on : bool) ops im ss s ss' fuel : simple_ops mt false ops = true -> sim ss s ->
   code_at im (m_pc s) (c_stmt rt mt false None (if on then SOn ops else SOff ops)) ->
   Sem.exec rt mt fuel false ss (if on then SOn ops else SOff ops) = ROk SigNormal ss' ->
   simulates im ss s ss' (c_stmt rt mt false None (if on then SOn ops else SOff ops)).
@@ -1278,7 +1388,8 @@ Definition simple_atom (st : stmt) : bool :=
   | STimeAt ps => simple_times mt ps
   | SPrint (Some v) | SPrintln (Some v) => plain_rval mt v
   | SPrint None | SPrintln None | SDefineMacro _ _ => true     (* nothing / a line break / a constant: no value to compute *)
-  | SSet ops | SOn ops | SOff ops => simple_ops mt ops
+  | SSet ops => simple_ops mt true ops
+  | SOn ops | SOff ops => simple_ops mt false ops
   | _ => false
   end.
 
@@ -1441,14 +1552,21 @@ Proof.
   - apply andb_true_iff in Hp. destruct Hp as [Hs _]. rewrite c_rval_expr, forallb_app, (c_expr_no_routine e Hs). reflexivity.
 Qed.
 
-Lemma c_ops_no_routine op ops : not_routine (I0 op) = true -> simple_ops mt ops = true -> forallb not_routine (c_ops rt mt false op ops) = true.
+Lemma c_ops_no_routine (c : bool) ops : simple_ops mt c ops = true -> forallb not_routine (c_ops rt mt false (cmd_op c) ops) = true.
 Proof.
-  intros Hop Hs. destruct ops as [| |l]; cbn [simple_ops] in Hs; try discriminate.
+  intros Hs. assert (Hop : not_routine (I0 (cmd_op c)) = true) by (destruct c; reflexivity).
+  destruct ops as [| |l]; cbn [simple_ops] in Hs; try discriminate.
   - rewrite c_ops_all. cbn [forallb]. rewrite Hop. reflexivity.
   - rewrite c_ops_default. cbn [forallb]. rewrite Hop. reflexivity.
   - induction l as [|o r IH]; [reflexivity|]. cbn [forallb] in Hs. apply andb_true_iff in Hs. destruct Hs as [Ho Hr].
-    destruct o as [k n| | |]; cbn [simple_opnd] in Ho; try discriminate.
-    rewrite c_ops_cons, !forallb_app, (IH Hr). cbn [forallb]. rewrite Hop. destruct n; reflexivity.
+    destruct o as [k n|n a b| |]; cbn [simple_opnd] in Ho; try discriminate.
+    + rewrite c_ops_cons, !forallb_app, (IH Hr). cbn [forallb]. rewrite Hop. destruct n; reflexivity.
+    + apply andb_true_iff in Ho. destruct Ho as [Hcc Hz]. subst c. cbn [cmd_op] in *. rewrite c_ops_cons_zone, forallb_app, (IH Hr).
+      unfold zone_ok in Hz. apply andb_true_iff in Hz. destruct Hz as [Hz Hpb]. apply andb_true_iff in Hz. destruct Hz as [_ Hpa].
+      unfold zone_code, c_range. cbn [fst snd]. rewrite !forallb_app, (c_rval_no_routine a (DReg R_FIRST_ZONE) Hpa (plain_ok_hidden mt R_FIRST_ZONE a Hpa eq_refl eq_refl)).
+      assert (Hb : forallb not_routine match b with Some b' => c_rval rt mt b' (DReg R_LAST_ZONE) | None => [I2 OC_MOVEQ PNone (PReg R_LAST_ZONE)] end = true).
+      { destruct b as [b'|]; [exact (c_rval_no_routine b' (DReg R_LAST_ZONE) Hpb (plain_ok_hidden mt R_LAST_ZONE b' Hpb eq_refl eq_refl))|reflexivity]. }
+      rewrite Hb. destruct n; reflexivity.
 Qed.
 
 Lemma atom_no_routine st : simple_atom mt st = true -> forallb not_routine (c_stmt rt mt false None st) = true.
@@ -1457,9 +1575,9 @@ Proof.
   - apply andb_true_iff in Hs. destruct Hs as [Hs Hd]. apply andb_true_iff in Hs. destruct Hs as [_ Hp].
     change (c_stmt rt mt false None (SReg r v)) with (c_rval rt mt v (DReg r)). apply c_rval_no_routine; assumption.
   - reflexivity.
-  - rewrite c_set, forallb_app, (c_ops_no_routine OC_COLOR ops eq_refl Hs). reflexivity.
-  - rewrite (c_power rt mt true ops), !forallb_app, (c_ops_no_routine OC_POWER ops eq_refl Hs). reflexivity.
-  - rewrite (c_power rt mt false ops), !forallb_app, (c_ops_no_routine OC_POWER ops eq_refl Hs). reflexivity.
+  - pose proof (c_ops_no_routine true ops Hs) as Hn. cbn [cmd_op] in Hn. rewrite c_set, forallb_app, Hn. reflexivity.
+  - pose proof (c_ops_no_routine false ops Hs) as Hn. cbn [cmd_op] in Hn. rewrite (c_power rt mt true ops), !forallb_app, Hn. reflexivity.
+  - pose proof (c_ops_no_routine false ops Hs) as Hn. cbn [cmd_op] in Hn. rewrite (c_power rt mt false ops), !forallb_app, Hn. reflexivity.
   - change (c_stmt rt mt false None (SGet n)) with (c_rval rt mt n (DReg R_RESULT) ++ [I2 OC_MOVE (PReg R_RESULT) (PReg R_NAME); I0 OC_GET_COLOR]).
     rewrite forallb_app, (c_rval_no_routine n (DReg R_RESULT) Hs (plain_ok_result mt n Hs)). reflexivity.
   - reflexivity.
